@@ -97,13 +97,14 @@ def stepConn (reg : Registry) (vt : VarTable) (st : CState) (c : VRef × VRef) :
       | .error _ => .error (.keyError "undefined unit")
       | .ok f =>
         if f = [] then
-          -- cf == 1: direct substitution; an annotation on the target moves to the source
+          -- cf == 1: direct substitution; an annotation on the target moves to `source.assigned_to`
+          -- (repaired by C13, commit df25620; before: to `source`, i.e. `s` in place of `a` in the next lines)
           match cmetaOf st t with
           | none => .ok (some { st with mapping := mapping, assigned := (t, a) :: st.assigned })
           | some id =>
-            if (cmetaOf st s).isSome then .error (.valueError "Cannot transfer cmeta id: target variable already has a cmeta id")
+            if (cmetaOf st a).isSome then .error (.valueError "Cannot transfer cmeta id: target variable already has a cmeta id")
             else .ok (some { st with mapping := mapping, assigned := (t, a) :: st.assigned,
-                                     cmeta := (s, some id) :: (t, none) :: st.cmeta })
+                                     cmeta := (a, some id) :: (t, none) :: st.cmeta })
         else
           .ok (some { st with mapping := mapping, assigned := (t, t) :: st.assigned,
                               convs := st.convs ++ [⟨t, a, f, unitsOf vt t, unitsOf vt s⟩] })
